@@ -1268,6 +1268,148 @@ func (w *world) runCorpus() {
 	}
 }
 
+// `work list` / `work status` on some sessions while others release units whose directories
+// take a while to remove (and submit-and-release fresh ones): the unit index lock and the units'
+// status locks are taken by both sides; any inversion of their order wedges every work command.
+func (w *world) listVsRelease(nUnits, filesPer int) {
+	if w.fatal != "" {
+		return
+	}
+	var ids []string
+	for i := 0; i < nUnits; i++ {
+		id := w.makeDiskOnly()
+		dir := filepath.Join(w.d.UnitsDir(), id)
+		for j := 0; j < filesPer; j++ {
+			_ = os.WriteFile(filepath.Join(dir, fmt.Sprintf("artifact%05d", j)), []byte("x"), 0o600)
+		}
+		_ = os.WriteFile(filepath.Join(dir, "stdout"), bytes.Repeat([]byte("o"), 4096), 0o600)
+		ids = append(ids, id)
+	}
+	// bring them into the index
+	for _, id := range ids {
+		s, err := dialNet("unix", w.d.Sock)
+		if err != nil {
+			break
+		}
+		_ = s.send([]byte("work status " + id + "\n"))
+		_, _ = s.line(3 * time.Second)
+		s.close()
+	}
+	w.mu.Lock()
+	for _, id := range ids {
+		delete(w.disk, id)
+	}
+	w.mu.Unlock()
+	var mu sync.Mutex
+	var stalled []string
+	stop := make(chan struct{})
+	var listers, releasers sync.WaitGroup
+	nLists, nReleases := 0, 0
+	cmd := func(s *Sess, line string) bool {
+		if s.send([]byte(line+"\n")) != nil {
+			return false
+		}
+		t0 := time.Now()
+		if _, err := s.line(5 * time.Second); err != nil {
+			mu.Lock()
+			stalled = append(stalled, fmt.Sprintf("%q: no answer after %v (%v)", line, time.Since(t0).Round(time.Millisecond), err))
+			mu.Unlock()
+			return false
+		}
+		return true
+	}
+	for l := 0; l < 2; l++ {
+		listers.Add(1)
+		go func(l int) {
+			defer listers.Done()
+			network, addr := "unix", w.d.Sock
+			if l == 1 {
+				network, addr = "tcp", fmt.Sprintf("127.0.0.1:%d", w.tcp)
+			}
+			s, err := dialNet(network, addr)
+			if err != nil {
+				return
+			}
+			defer s.close()
+			for i := 0; ; i++ {
+				select {
+				case <-stop:
+					return
+				default:
+				}
+				line := "work list"
+				if i%4 == 3 {
+					line = "work status " + ids[i%len(ids)]
+				} else if i%8 == 5 {
+					line = `{"command":"work","subcommand":"list","unitid":"` + ids[i%len(ids)] + `"}`
+				}
+				if !cmd(s, line) {
+					return
+				}
+				mu.Lock()
+				nLists++
+				mu.Unlock()
+			}
+		}(l)
+	}
+	for r := 0; r < 2; r++ {
+		releasers.Add(1)
+		go func(r int) {
+			defer releasers.Done()
+			s, err := dialNet("unix", w.d.Sock)
+			if err != nil {
+				return
+			}
+			defer s.close()
+			for i := r; i < len(ids); i += 2 {
+				sub := "release"
+				if i%3 == 2 {
+					sub = "force-release"
+				}
+				if !cmd(s, "work "+sub+" "+ids[i]) {
+					return
+				}
+				mu.Lock()
+				nReleases++
+				mu.Unlock()
+				if i%4 == r {
+					// submit-and-release of a fresh unit on a session of its own
+					if id := w.makeSubmitted(); id != "nounit" {
+						if !cmd(s, "work release "+id) {
+							return
+						}
+					}
+				}
+			}
+		}(r)
+	}
+	done := make(chan struct{})
+	go func() { releasers.Wait(); close(done) }()
+	select {
+	case <-done:
+	case <-time.After(20 * time.Second):
+	}
+	close(stop)
+	listers.Wait()
+	rec := map[string]interface{}{"what": "work list / work status on 2 sessions while 2 sessions release units with large directories",
+		"units": nUnits, "files_per_unit": filesPer, "lists_answered": nLists, "releases_answered": nReleases, "stalled": stalled}
+	w.im.Hist("concurrent:list-vs-release")
+	w.im.Hist(fmt.Sprintf("list-vs-release:lists-answered-%d+", nLists/50*50))
+	w.im.Count(fmt.Sprintf("list-vs-release %d", w.im.Evaluations), true)
+	w.im.Evaluations += nLists + nReleases
+	if len(stalled) > 0 && w.d.Alive() {
+		w.im.Violate(fmt.Sprintf("work commands stopped being answered while listing and releasing concurrently (%d lists, %d of %d releases answered): %s",
+			nLists, nReleases, nUnits, stalled[0]), "wedged:list-vs-release", rec)
+	}
+	if after := w.afterInput("concurrent work list and work release", rec); after != nil {
+		for _, id := range after {
+			if id != w.uIdx {
+				w.release(id)
+			}
+		}
+	}
+}
+
 // the same state-changing built-in from several sessions at once
 func (w *world) concurrentReload(n, reps int) {
 	if w.fatal != "" {
@@ -1307,13 +1449,22 @@ func (w *world) concurrentReload(n, reps int) {
 
 func runC08(c *Ctx) {
 	im := NewImpl("C08", c.Seed, c.Tier)
-	im.Rule = "sessions on the real daemon: (1) systematic product command x field x {absent, null, bool, number, string, arrays, object} plus value sets for unit IDs (indexed, disk-only, foreign path, path characters, absent), nodes, work types, ttl, options, spellings; raw JSON shapes; plain-text forms; (2) random byte streams of 1-5 lines with CR/LF/'{' sprinkled in; (3) mixed multi-command sessions, half of them ending in an unterminated line + half-close; (4) abrupt disconnects at 8 points, 1 MiB lines of 5 kinds, N concurrent sessions (oracle only); non-trivial = at least one non-empty request line; distinct by full input"
+	im.Rule = "sessions on the real daemon: (1) systematic product command x field x {absent, null, bool, number, string, arrays, object} plus value sets for unit IDs (indexed, disk-only, foreign path, path characters, absent), nodes, work types, ttl, options, spellings; raw JSON shapes; plain-text forms; (2) random byte streams of 1-5 lines with CR/LF/'{' sprinkled in; (3) mixed multi-command sessions, half of them ending in an unterminated line + half-close; (4) abrupt disconnects at 8 points, 1 MiB lines of 5 kinds, N concurrent sessions, concurrent reloads, work list/status on two sessions against release of units with large directories on two others (oracle only); non-trivial = at least one non-empty request line; distinct by full input"
 	cf := &CaseFile{Dir: c.Out, Prop: "C08", Imports: []string{"Model.Ctl"}, CaseType: "ctl_case", CheckFn: "ctl_check", PerShard: 250}
 	if c.Bin == "" {
 		Must(fmt.Errorf("VERIF_BIN not set"))
 	}
 	w := setup(c, im, cf)
 	defer w.teardown()
+	if os.Getenv("VERIF_C08_PHASE") == "list-vs-release" {
+		// development aid: only the lock-order phase
+		for i := 0; i < 3; i++ {
+			w.listVsRelease(16, 1500)
+		}
+		Must(cf.Write())
+		Must(im.Write(c.Out))
+		return
+	}
 	// corpus first: the historical crash, wedge and path escape (corpus/C08/*.json; concurrent
 	// reload is replayed by concurrentReload below)
 	w.runCorpus()
@@ -1351,6 +1502,7 @@ func runC08(c *Ctx) {
 	for i := 0; i < nConc; i++ {
 		w.concurrent(8, 12)
 		w.concurrentReload(8, 25)
+		w.listVsRelease(16, 1500)
 	}
 	if w.fatal != "" && w.restarts < maxRestarts {
 		im.Violate("harness could not go on: "+w.fatal, "harness-stuck", nil)
